@@ -31,7 +31,8 @@ NAMES = ['a', 'b', 'y', 'x', 'LAG_F', 'HH__F', 'T']
 VAL_ENV_SIZES = 3
 
 atom_name = st.sampled_from(NAMES)
-atom_num = st.sampled_from(['2', '3', '0.5', '1.', '.25', '10', '1e2', '0.1', '7'])
+atom_num = st.sampled_from(['2', '3', '0.5', '1.', '.25', '10', '1e2', '0.1', '7', '0.1234567', '1234.5678', '3.14159265358979',
+                            '100000.5', '12345678', '1e-7', '0.000123456789'])
 
 
 @st.composite
